@@ -206,11 +206,67 @@ void LVCalc(matrix *X,
   /* End Step 1 */
 
   /* Nothing left to model: a null response block (constant response, or response already explained),
-   * a null X block (more latent variables than the rank of X) or a response orthogonal to every x variable
-   * give w = 0 and the iteration becomes 0/0 forever. The latent variable does not exist:
-   * return it null with b = 0 and leave X and Y as they are. */
-  DVectorMatrixDotProduct(X_, u_, w_);
-  if(DVectorDVectorDotProd(w_, w_) == 0.f){
+   * a null X block (more latent variables than the rank of X) or responses orthogonal to every x variable
+   * give w = 0 and the iteration becomes 0/0 forever. The test is made on the whole response block
+   * (cov_j = |X'y_j|^2 against |X|^2 |Y|^2, so that a response reduced to rounding residue cannot vouch
+   * for itself): if no response has covariance with X the latent variable does not exist and is returned
+   * null with b = 0, X and Y are left as they are. */
+  dot_u = 0.f; /* sum of squares of X */
+  for(i = 0; i < X_->row; i++){
+    for(j = 0; j < X_->col; j++){
+      dot_u += square(X_->data[i][j]);
+    }
+  }
+
+  dot_t = 0.f; /* sum of squares of Y */
+  dot_q = -1.f; /* largest covariance */
+  dot_w = 0.f; /* covariance of the start column */
+  mod_p_old = 0.f; /* sum of squares of the start column */
+  {
+    size_t k, start = 0, best = 0;
+    double cov, yy;
+    /* start = column copied in u_ at step 1 */
+    for(k = 0; k < Y_->col; k++){
+      for(i = 0; i < u_->size; i++){
+        if(u_->data[i] != Y_->data[i][k])
+          break;
+      }
+      if(i == u_->size){
+        start = k;
+        break;
+      }
+    }
+
+    for(k = 0; k < Y_->col; k++){
+      yy = 0.f;
+      for(i = 0; i < t_->size; i++){
+        t_->data[i] = Y_->data[i][k];
+        yy += square(t_->data[i]);
+      }
+      DVectorSet(w_, 0.f);
+      DVectorMatrixDotProduct(X_, t_, w_);
+      cov = DVectorDVectorDotProd(w_, w_);
+      dot_t += yy;
+      if(cov > dot_q){
+        dot_q = cov;
+        best = k;
+      }
+      if(k == start){
+        dot_w = cov;
+        mod_p_old = yy;
+      }
+    }
+
+    /* The start column has no covariance with X but another response has: start from that one. */
+    if(dot_q > 1e-24*dot_u*dot_t && dot_w <= 1e-24*dot_u*mod_p_old){
+      for(i = 0; i < u_->size; i++){
+        u_->data[i] = Y_->data[i][best];
+      }
+    }
+  }
+
+  if(dot_q <= 1e-24*dot_u*dot_t){
+    /* X'Y = 0 for every response: nothing can be modelled */
     DVectorSet(t, 0.f);
     DVectorSet(u, 0.f);
     DVectorSet(p, 0.f);
@@ -456,6 +512,7 @@ void PLS(matrix *mx, matrix *my, size_t nlv, int xautoscaling, int yautoscaling,
     dvector *yeval;
 
     double ssx;
+    double ssy;
 
     if(mx->row == my->row){
       if(nlv > mx->col) /* if the number of principal component selected is major of the permitted */
@@ -473,6 +530,13 @@ void PLS(matrix *mx, matrix *my, size_t nlv, int xautoscaling, int yautoscaling,
       for(i = 0; i < X->row; i++){
         for(j = 0; j < X->col; j++){
           ssx += square(X->data[i][j]);
+        }
+      }
+
+      ssy = 0.f;
+      for(i = 0; i < Y->row; i++){
+        for(j = 0; j < Y->col; j++){
+          ssy += square(Y->data[i][j]);
         }
       }
 
@@ -516,8 +580,33 @@ void PLS(matrix *mx, matrix *my, size_t nlv, int xautoscaling, int yautoscaling,
         }
         else{
           double bcoef = 0.f;
-          /* Calculate the Latent Variable (LV) according the NIPALS algorithm */
-          LVCalc(X, Y, t, u, p, q, w, &bcoef);
+          double ssx_left = 0.f;
+          double ssy_left = 0.f;
+          for(i = 0; i < X->row; i++){
+            for(j = 0; j < X->col; j++){
+              ssx_left += square(X->data[i][j]);
+            }
+          }
+
+          for(i = 0; i < Y->row; i++){
+            for(j = 0; j < Y->col; j++){
+              ssy_left += square(Y->data[i][j]);
+            }
+          }
+
+          if(ssx_left <= 1e-24*ssx || ssy_left <= 1e-24*ssy){
+            /* X is exhausted (more latent variables than its rank) or Y is completely explained:
+             * what is left is rounding noise. The latent variable does not exist: store it null. */
+            DVectorSet(t, 0.f);
+            DVectorSet(u, 0.f);
+            DVectorSet(p, 0.f);
+            DVectorSet(q, 0.f);
+            DVectorSet(w, 0.f);
+          }
+          else{
+            /* Calculate the Latent Variable (LV) according the NIPALS algorithm */
+            LVCalc(X, Y, t, u, p, q, w, &bcoef);
+          }
 
           #ifdef DEBUG
           printf("\n Deflated X\n");
@@ -608,6 +697,25 @@ void PLSBetasCoeff(PLSMODEL *model, size_t nlv, dvector *betas)
   */
   size_t i, j;
   matrix *W, *P_, *B_;
+
+  /* Latent variables that do not exist (stored null: nothing was left to model) add nothing to the
+   * prediction and would make P'W singular: use the leading real ones. */
+  if(nlv > model->xweights->col)
+    nlv = model->xweights->col;
+  while(nlv > 0){
+    double ww = 0.f;
+    for(i = 0; i < model->xweights->row; i++)
+      ww += square(model->xweights->data[i][nlv-1]);
+    if(ww > 0.f)
+      break;
+    nlv--;
+  }
+  if(nlv == 0){
+    DVectorResize(betas, model->xweights->row);
+    DVectorSet(betas, 0.f);
+    return;
+  }
+
   NewMatrix(&W, model->xweights->row, nlv);
   NewMatrix(&P_, nlv, model->xweights->row);
   NewMatrix(&B_, nlv, 1);;
